@@ -657,6 +657,14 @@ def case_header_box(c):
                     import blimpy
                     _check_helpers(hdr, pay, blimpy.Waterfall(p), V, fr2=fr2, label='Waterfall object')
                 if n <= 8:
+                    # file-side history, same size: the path is overwritten with a file of the SAME geometry and byte length (same
+                    # source-name length) but another band, orientation and content
+                    name3 = str(hdr.get('source_name', 'BOXSRC'))[::-1]
+                    hdr3 = S.default_header(n, c['fch1'] + 7.0, -c['foff'], tsamp, tstart=59105.5, source_name=name3)
+                    pay3 = (900.0 - np.arange(m * n).reshape(m, n)).astype(np.float32)
+                    S.write_fil(p, hdr3, pay3)
+                    _check_helpers(hdr3, pay3, p, V, label='file (path reused for another file of the same size)')
+                if n <= 8:
                     # file-side history: the SAME path is overwritten with a file of another geometry / band / orientation and
                     # queried again -- the helpers and the loader must describe the file that is on disk now
                     n2, m2 = n + 1, m + 1
